@@ -185,6 +185,8 @@ class C16(c01.C01):
             else:
                 m, ps = ["unknown", 0], rng.choice(["bad", "fail"])
             msgs.append(["recv", {"t": "req", "id": i, "ver": True, "ps": ps, "m": m, "np": False}])
+            if m[0] == "unknown" and ps == "ok":
+                msgs[-1][1]["mn"] = rng.randrange(10 ** 6)
         for a in range(rng.choice([0, 0, 1, 1, 2])):
             tgt = rng.choice(used) if rng.random() < 0.8 else rng.choice(IDS)
             pos = rng.randint(1, len(msgs))
